@@ -37,6 +37,9 @@ def run(ctx):
     r12_4(ctx, rep, roles)
     r12_5(ctx, rep, roles)
     r12_6(ctx, rep, roles)
+    from .. import wrappers
+    wrappers.accessors(ctx, rep, roles, "C12", "R12.7")
+    wrappers.digest_wrapper(ctx, rep, roles, "C12", "R12.8")
 
 
 def r12_1b(ctx, rep, roles):
